@@ -200,17 +200,20 @@ def model_lines(case, atoms):
 
 
 def gen_case(rng, pools):
+    import random
     s = gen_struct(rng, pools)
-    return dict(struct=s, density=nc.gen_density(rng), w=nc.gen_wavelength(rng, pools),
+    vseed = rng.randrange(2 ** 31)
+    return dict(struct=s, vseed=vseed, density=nc.gen_density(rng), w=nc.gen_wavelength(rng, pools),
                 k=rng.choice([2.0, 0.5, 10.0, 1e-3, 3.7, 0.1, 1.0000001, 123.456]),
                 c=rng.choice([2.0, 3.0, 0.5, 10.0, 0.1, 7.0, 1e3, 1e-3, 2.5]),
                 ws=[nc.gen_wavelength(rng, pools) for _ in range(rng.randint(1, 6))],
-                variants=variants(rng, s))
+                variants=variants(random.Random(vseed), s))
 
 
 def judge(run, pt, case, replies):
     f, atoms, N, out = evaluate_case(pt, case)
-    inp = dict(struct=case["struct"], density=case["density"], w=case["w"], k=case["k"], c=case["c"], ws=case["ws"])
+    inp = dict(struct=case["struct"], density=case["density"], w=case["w"], k=case["k"], c=case["c"], ws=case["ws"],
+               vseed=case["vseed"])
     b = out["base"]
     k = case["k"]
     rel = []                         # (relation name, expected, got, N for tolerance)
@@ -326,7 +329,7 @@ def replay(data) -> int:
             continue
         s = _fix(inp["struct"])
         case = dict(struct=s, density=inp["density"], w=inp["w"], k=inp["k"], c=inp["c"], ws=inp["ws"],
-                    variants=variants(random.Random(0), s))
+                    vseed=inp.get("vseed", 0), variants=variants(random.Random(inp.get("vseed", 0)), s))
         f, atoms, N, out = evaluate_case(pt, case)
         for name, r in out.items():
             print("  %-22s %s" % (name, r))
